@@ -903,4 +903,177 @@ theorem memPoly_boxPoly (b : Box) (p : P3) : memPoly (boxPoly b) p = inBox b p :
   simp only [boxPoly, List.mem_cons, List.not_mem_nil, or_false, forall_eq_or_imp, forall_eq, dot]
   omega
 
+/-! ## 9. voxel neurons, back-end selection -/
+
+theorem masked_nil_left {α} (m : List Bool) : masked ([] : List α) m = [] := by simp [masked]
+
+theorem masked_nil_right {α} (l : List α) : masked l [] = [] := by simp [masked]
+
+theorem masked_cons {α} (a : α) (l : List α) (b : Bool) (m : List Bool) :
+    masked (a :: l) (b :: m) = if b then a :: masked l m else masked l m := by
+  cases b <;> simp [masked]
+
+theorem masked_zip {α β} (a : List α) (b : List β) (m : List Bool) :
+    masked (a.zip b) m = (masked a m).zip (masked b m) := by
+  induction a generalizing b m with
+  | nil => simp [masked_nil_left]
+  | cons x a ih =>
+    cases b with
+    | nil => simp [masked_nil_left]
+    | cons y b =>
+      cases m with
+      | nil => simp [masked_nil_right]
+      | cons c m =>
+        rw [List.zip_cons_cons, masked_cons, masked_cons, masked_cons, ih]
+        cases c <;> simp
+
+theorem filter_eq_self_of_all {α} (l : List α) (g : α → Bool) (h : l.all g = true) : l.filter g = l := by
+  apply List.filter_eq_self.mpr
+  intro a ha
+  exact List.all_eq_true.mp h a ha
+
+theorem inVolumeVox_cells (μ : Inside) (mode : Mode) (v : Vox) :
+    (inVolumeVox μ mode v).cells = v.cells.filter fun c => keepPred μ mode (v.centre2 c) := by
+  unfold inVolumeVox
+  rw [keepMask_points, List.map_map, all_id_map]
+  by_cases h : v.cells.all (keepPred μ mode ∘ v.centre2) = true
+  · rw [if_pos h]
+    exact (filter_eq_self_of_all _ _ h).symm
+  · rw [if_neg h]
+    exact masked_map v.cells (keepPred μ mode ∘ v.centre2)
+
+theorem zip_map_fst_of_length {α β γ} (a : List α) (b : List β) (g : α → γ) (h : b.length = a.length) :
+    (a.zip b).map (fun ab => g ab.1) = a.map g := by
+  induction a generalizing b with
+  | nil => simp
+  | cons x a ih =>
+    cases b with
+    | nil => simp at h
+    | cons y b =>
+      simp only [List.zip_cons_cons, List.map_cons]
+      rw [ih b (by simpa using h)]
+
+theorem inVolumeVox_rows (μ : Inside) (mode : Mode) (v : Vox) (h : v.values.length = v.cells.length) :
+    (inVolumeVox μ mode v).cells.zip (inVolumeVox μ mode v).values
+      = (v.cells.zip v.values).filter fun cv => keepPred μ mode (v.centre2 cv.1) := by
+  unfold inVolumeVox
+  rw [keepMask_points, List.map_map, all_id_map]
+  have hm : v.cells.map (keepPred μ mode ∘ v.centre2)
+      = (v.cells.zip v.values).map (fun cv => (keepPred μ mode ∘ v.centre2) cv.1) :=
+    (zip_map_fst_of_length v.cells v.values _ h).symm
+  by_cases hall : v.cells.all (keepPred μ mode ∘ v.centre2) = true
+  · rw [if_pos hall]
+    symm
+    apply filter_eq_self_of_all
+    rw [← all_id_map, ← all_id_map] at *
+    have : (v.cells.zip v.values).map (fun cv => keepPred μ mode (v.centre2 cv.1))
+        = v.cells.map (keepPred μ mode ∘ v.centre2) := hm.symm
+    rw [this]; exact hall
+  · rw [if_neg hall]
+    simp only
+    rw [← masked_zip, hm]
+    exact masked_map (v.cells.zip v.values) fun cv => (keepPred μ mode ∘ v.centre2) cv.1
+
+theorem half_centre2 (v : Vox) (c : P3) (hu : v.units.x % 2 = 1 ∧ v.units.y % 2 = 1 ∧ v.units.z % 2 = 1) :
+    Half (v.centre2 c) := by
+  obtain ⟨hx, hy, hz⟩ := hu
+  unfold Half Vox.centre2
+  refine ⟨?_, ?_, ?_⟩ <;> simp only <;> omega
+
+theorem selectBackend_spec (av : String → Bool) (bs : List String) (b : String)
+    (h : selectBackend av bs = some b) :
+    ∃ pre post, bs = pre ++ b :: post ∧ (b = "scipy" ∨ av b = true)
+      ∧ ∀ c ∈ pre, c ≠ "scipy" ∧ av c = false := by
+  induction bs with
+  | nil => cases h
+  | cons c t ih =>
+    unfold selectBackend at h
+    by_cases hc : (c == "scipy" || av c) = true
+    · rw [if_pos hc] at h
+      cases h
+      refine ⟨[], t, rfl, ?_, by intro c hc; cases hc⟩
+      simpa using hc
+    · rw [if_neg hc] at h
+      obtain ⟨pre, post, e, hb, hpre⟩ := ih h
+      refine ⟨c :: pre, post, by rw [e]; rfl, hb, ?_⟩
+      intro d hd
+      rcases List.mem_cons.mp hd with rfl | hd
+      · simpa using hc
+      · exact hpre d hd
+
+theorem selectBackend_none (av : String → Bool) (bs : List String) :
+    selectBackend av bs = none ↔ ∀ c ∈ bs, c ≠ "scipy" ∧ av c = false := by
+  induction bs with
+  | nil => simp [selectBackend]
+  | cons c t ih =>
+    unfold selectBackend
+    by_cases hc : (c == "scipy" || av c) = true
+    · rw [if_pos hc]
+      constructor
+      · intro h; cases h
+      · intro h
+        have := h c (List.mem_cons_self ..)
+        simp [this.1, this.2] at hc
+    · rw [if_neg hc, ih]
+      constructor
+      · intro h d hd
+        rcases List.mem_cons.mp hd with rfl | hd
+        · simpa using hc
+        · exact h d hd
+      · intro h d hd
+        exact h d (List.mem_cons_of_mem _ hd)
+
+/-! ## 10. `in_volume_pyoc`: ray consensus -/
+
+theorem foldl_pyocRay {α} (rays : List (α → Bool)) (st : List (α × Bool)) :
+    rays.foldl (fun st r => pyocRay r st) st = st.map fun x => (x.1, x.2 || !(rays.all fun r => r x.1)) := by
+  induction rays generalizing st with
+  | nil => simp
+  | cons r t ih =>
+    rw [List.foldl_cons, ih]
+    unfold pyocRay
+    rw [List.map_map]
+    apply List.map_congr_left
+    intro x _
+    simp only [Function.comp, List.all_cons]
+    cases x.2 <;> cases r x.1 <;> simp
+
+theorem pyocLoop_eq {α} (bb : α → Bool) (rays : List (α → Bool)) (pts : List α) :
+    pyocLoop bb rays pts = pts.map fun p => bb p && rays.all fun r => r p := by
+  unfold pyocLoop
+  rw [foldl_pyocRay, List.map_map, List.map_map]
+  apply List.map_congr_left
+  intro p _
+  simp only [Function.comp]
+  cases bb p <;> simp
+
+/-! ## 11. chains of poses (volume histories) -/
+
+theorem Pose.box_ok (π : Pose) (b : Box) : (π.box b).ok := by
+  unfold Pose.box Box.ok
+  simp only
+  omega
+
+theorem Pose.solid_ok (π : Pose) (S : Solid) : ∀ sb ∈ π.solid S, sb.2.ok := by
+  intro sb h
+  unfold Pose.solid at h
+  obtain ⟨x, _, rfl⟩ := List.mem_map.mp h
+  exact Pose.box_ok π x.2
+
+/-- the solid after a chain of in-place poses, and the image of a query point under the same chain -/
+def poseChainSolid (πs : List Pose) (S : Solid) : Solid := πs.foldl (fun S π => π.solid S) S
+def poseChainPt (πs : List Pose) (p : P3) : P3 := πs.foldl (fun p π => π.pt p) p
+
+theorem mem_poseChain (πs : List Pose) (hπ : ∀ π ∈ πs, π.ok) (S : Solid) (hS : ∀ sb ∈ S, sb.2.ok) (p : P3) :
+    mem (poseChainSolid πs S) (poseChainPt πs p) = mem S p := by
+  induction πs generalizing S p with
+  | nil => rfl
+  | cons π t ih =>
+    unfold poseChainSolid poseChainPt
+    simp only [List.foldl_cons]
+    have := ih (fun π' h => hπ π' (List.mem_cons_of_mem _ h)) (π.solid S) (Pose.solid_ok π S) (π.pt p)
+    unfold poseChainSolid poseChainPt at this
+    rw [this]
+    exact mem_pose π (hπ π (List.mem_cons_self ..)) S hS p
+
 end Navis.Volume
